@@ -1,3 +1,109 @@
 import Gengo.Model.Exec
+/-! # C10 – verify-only mode is a faithful, read-only comparison (v1 `Context.Verify`) -/
 namespace Gengo.C10
+open Gengo Gengo.Exec
+
+/-- a file passes verification iff it formats and the disk holds exactly the formatted bytes -/
+def Identical (format : Str → Option Str) (d : Disk) (dir : Str) (f : File) : Prop :=
+  ∃ b, format (assemble f) = some b ∧ d.readFile (joinPath dir f.name) = some b
+
+theorem verifyFile_iff (format : Str → Option Str) (d : Disk) (dir : Str) (f : File) :
+    verifyFile format d f (joinPath dir f.name) = true ↔ Identical format d dir f := by
+  unfold verifyFile Identical
+  cases hf : format (assemble f) with
+  | none => simp
+  | some b =>
+    cases hr : d.readFile (joinPath dir f.name) with
+    | none => simp
+    | some e => simp [eq_comm]
+
+/-- **verify_leaves_files_unchanged** (assembly loop): in verify-only mode the disk is returned as it was -/
+theorem verify_loop_disk (format : Str → Option Str) (c : Ctx) (hv : c.verify = true) (dir : Str)
+    (files : List File) (d : Disk) : (assembleAll format c dir files d).1 = d := by
+  induction files generalizing d with
+  | nil => rfl
+  | cons f fs ih => simp only [assembleAll, hv, if_true]; exact ih d
+
+/-- **verify_error_names_each_bad_file**: the reported names are exactly the files that are missing,
+differ in any byte, or cannot be formatted – in file order, none omitted, none added -/
+theorem verify_names (format : Str → Option Str) (c : Ctx) (hv : c.verify = true) (dir : Str)
+    (files : List File) (d : Disk) :
+    (assembleAll format c dir files d).2 =
+      (files.filter (fun f => !verifyFile format d f (joinPath dir f.name))).map (·.name) := by
+  induction files with
+  | nil => rfl
+  | cons f fs ih =>
+    simp only [assembleAll, hv, if_true, List.filter_cons]
+    cases hf : verifyFile format d f (joinPath dir f.name) with
+    | true => simpa using ih
+    | false => simp [ih]
+
+/-- **verify_ok_iff_all_identical** (assembly loop) -/
+theorem verify_loop_ok_iff (format : Str → Option Str) (c : Ctx) (hv : c.verify = true) (dir : Str)
+    (files : List File) (d : Disk) :
+    (assembleAll format c dir files d).2 = [] ↔ ∀ f ∈ files, Identical format d dir f := by
+  rw [verify_names format c hv]
+  simp only [List.map_eq_nil_iff, List.filter_eq_nil_iff, Bool.not_eq_true', Bool.not_eq_false]
+  constructor
+  · intro h f hf; exact (verifyFile_iff format d dir f).mp (h f hf)
+  · intro h f hf; exact (verifyFile_iff format d dir f).mpr (h f hf)
+
+/-- **verify_leaves_fs_unchanged**: a whole target run in verify-only mode leaves directories and
+files exactly as they were (true since the repair of F11: `MkdirAll` is skipped when verifying) -/
+theorem verify_leaves_fs_unchanged (format : Str → Option Str) (c : Ctx) (hv : c.verify = true)
+    (tgt : Target) (d : Disk) : (executeTarget format c tgt d).2.2 = d := by
+  unfold executeTarget
+  simp only [hv, if_true, Option.isNone_some, Bool.and_false, Bool.false_eq_true, if_false, Option.getD_some]
+  split
+  · rfl
+  · split
+    · rfl
+    · exact verify_loop_disk format c hv _ _ _
+
+/-- … and so does a run over any list of targets -/
+theorem verify_all_targets_unchanged (format : Str → Option Str) (c : Ctx) (hv : c.verify = true)
+    (ts : List Target) (d : Disk) : (executeTargets format c ts d).2 = d := by
+  induction ts generalizing d with
+  | nil => rfl
+  | cons t ts ih =>
+    simp only [executeTargets]
+    rw [verify_leaves_fs_unchanged format c hv t d]
+    exact ih d
+
+/-- **verify_ok_iff_all_identical** (whole target): when the generators run through and every file
+type is registered, verify-only reports exactly the files that are not byte-identical on disk (missing,
+different, or unformattable) and succeeds iff there is none (`verify_loop_ok_iff`: iff every file the
+run would have written already exists with identical content). -/
+theorem verify_target (format : Str → Option Str) (c : Ctx) (hv : c.verify = true) (tgt : Target)
+    (d : Disk) (evs : List Ev) (files : List File)
+    (hrun : runGens c tgt (c.order.filter (fun t => tgt.accept.contains t)) tgt.gens [] = (evs, .inr files))
+    (hft : files.any (fun f => !c.fileTypes.contains f.fileType) = false) :
+    (executeTarget format c tgt d).2.1 =
+      (let bad := (files.filter (fun f => !verifyFile format d f (joinPath tgt.dir f.name))).map (·.name)
+       if bad.isEmpty then TRes.ok else TRes.errFiles (sortedKeys bad)) := by
+  unfold executeTarget
+  simp only [hv, if_true, Option.isNone_some, Bool.and_false, Bool.false_eq_true, if_false, Option.getD_some, hrun, hft]
+  rw [verify_names format c hv tgt.dir files d]
+
+theorem verify_target_ok_iff (format : Str → Option Str) (c : Ctx) (hv : c.verify = true) (tgt : Target)
+    (d : Disk) (evs : List Ev) (files : List File)
+    (hrun : runGens c tgt (c.order.filter (fun t => tgt.accept.contains t)) tgt.gens [] = (evs, .inr files))
+    (hft : files.any (fun f => !c.fileTypes.contains f.fileType) = false) :
+    (executeTarget format c tgt d).2.1 = TRes.ok ↔ ∀ f ∈ files, Identical format d tgt.dir f := by
+  rw [verify_target format c hv tgt d evs files hrun hft, ← verify_loop_ok_iff format c hv tgt.dir files d,
+    verify_names format c hv]
+  simp only
+  cases h : (files.filter (fun f => !verifyFile format d f (joinPath tgt.dir f.name))).map (·.name) with
+  | nil => simp
+  | cons a l => simp
+
+/-! non-vacuity: a file that is identical on disk, and one that is not -/
+def f1 : File := ⟨"a.go".toList, "go".toList, "p".toList, [], [], [], [], "x\n".toList⟩
+example (fmt : Str → Option Str) (b : Str) (h : fmt (assemble f1) = some b) :
+    Identical fmt ⟨["d".toList], [(joinPath "d".toList f1.name, b)]⟩ "d".toList f1 :=
+  ⟨b, h, by simp [Disk.readFile, AL.lookup]⟩
+example (fmt : Str → Option Str) (b : Str) (h : fmt (assemble f1) = some b) :
+    verifyFile fmt ⟨["d".toList], []⟩ f1 (joinPath "d".toList f1.name) = false := by
+  simp [verifyFile, h, Disk.readFile, AL.lookup]
+
 end Gengo.C10
